@@ -221,6 +221,33 @@ def r3(ctx):
             drain = [n for n in after if n.ast is not None and n.kind != "join" and any(cfg_attr(x) == "graceful_timeout" for root in n.cover for x in ast.walk(root))]
             ctx.check("C04.R3", bool(drain), key(f, "bounded-drain"), site(f), "after the `alive` loop %s does not wait for in-flight requests with a bound derived from cfg.graceful_timeout" % f.short,
                       "drain bounded by graceful_timeout: `%s`" % (drain[0].text if drain else ""))
+            # in the shutdown phase the worker ends only what run() itself started (its servers / acceptors, held in locals):
+            # a kill / throw / cancel aimed at something reached through `self` hits handlers that may have a request in hand
+            # (half-read head, request queued for a pool thread) before the graceful timeout has passed
+            for n in after:
+                if n.ast is None:
+                    continue
+                for root in n.cover:
+                    for c in ast.walk(root):
+                        if isinstance(c, ast.Call) and isinstance(c.func, ast.Attribute) and c.func.attr in ("kill", "killall", "throw", "cancel"):
+                            rv = c.func.value
+                            src = None
+                            if isinstance(rv, ast.Name):
+                                src = rv
+                                # iteration variable of a for / comprehension: judged by what is iterated
+                                for a in [n.ast] + list(f.module.ancestors(c)):
+                                    if isinstance(a, ast.For) and any(isinstance(x, ast.Name) and x.id == rv.id for x in ast.walk(a.target)):
+                                        src = a.iter
+                                    if isinstance(a, (ast.ListComp, ast.GeneratorExp, ast.SetComp)):
+                                        for gen in a.generators:
+                                            if any(isinstance(x, ast.Name) and x.id == rv.id for x in ast.walk(gen.target)):
+                                                src = gen.iter
+                            else:
+                                src = rv
+                            via_self = any(isinstance(x, ast.Name) and x.id == "self" for x in ast.walk(src))
+                            ctx.check("C04.R3", not via_self, key(f, "graceful-kill|" + norm(c)[:40]), site(f, c),
+                                      "during the graceful phase %s ends `%s` (reached through self, not something run() started itself): handlers that are reading a request, or requests queued for the pool, "
+                                      "are cut before the graceful timeout has passed" % (f.short, norm(src)), "only run()'s own servers / acceptors are ended")
     # gevent: the drain loop ends early only when NO listener's pool is busy (decision table over two listeners)
     if repo.has_func("gunicorn.workers.ggevent.GeventWorker.run"):
         from ..absint import SpecObj
